@@ -142,6 +142,8 @@ def main():
             c["text"] = c["text"] + " BlockSymbol.Name is the block type followed by every label, Go-quoted with %q / strconv.Quote (no other transformation of the label text)."
         if pid in E15_PROPS | {"C17","C04"}:
             c["text"] = c["text"] + " A slice made with a non-zero length is filled by index or copy and is not appended to while its made elements are never stored into (E15.append-after-sized-make)."
+        if pid in {"C02","C18","C09","C10"}:
+            c["text"] = c["text"] + " A parser started at a position inside the file is given the file's bytes, or a decoded value only under a guard that its length equals the byte length of the quoted source (E6.decoded-text-positions; two known findings)."
         if pid in {"C01","C17"}:
             c["text"] = c["text"] + " No == / != between two interface values whose interface has a non-comparable implementer in the module (E4.P6)."
         if pid in {"C09","C10","C12","C13","C14"}:
